@@ -8,7 +8,7 @@
    The same bookkeeping is done here in [last].
    Definitions only. *)
 From Coq Require Import List NArith ZArith Bool.
-From BLB Require Import Store.Bytes Store.Model.
+From BLB Require Import Store.Bytes Store.Model Store.FaultModel.
 Import ListNotations.
 Open Scope N_scope.
 
@@ -148,6 +148,22 @@ Definition step_wire (w : wstate) (l : list Z) : wstate * list Z :=
   match l with
   | [0%Z; kind; nd] =>
       let w' := mkw (init (negb (kind =? 0)%Z)) [] (zN nd) in (w', enc_scan w')
+  | 13%Z :: t :: off :: orc :: _fk :: fe :: r =>
+      (* Create with an injected disk fault on the new file (Open / Setxattr / data Write, kind _fk) *)
+      match take_rle r with
+      | Some (d, []) =>
+          let '(s', e) := create_f (w_store w) (zN t) d (zN off) (zN orc) (Some fe) in
+          let w' := mkw s' (w_last w) (w_nd w) in (w', e :: enc_scan w')
+      | _ => (w, [(-1)%Z])
+      end
+  | 14%Z :: t :: v :: orc :: _fk :: fe :: n :: r =>
+      (* PullTract with an injected disk fault on the first new file it opens *)
+      match take_srcs (Z.to_nat n) r with
+      | Some (ss, []) =>
+          let '(s', e) := pull_tract_f (w_store w) (zN t) ss v (zN orc) (Some fe) in
+          let w' := mkw s' (w_last w) (w_nd w) in (w', e :: enc_scan w')
+      | _ => (w, [(-1)%Z])
+      end
   | _ =>
       match decode w l with
       | None => (w, [(-1)%Z])
